@@ -169,8 +169,15 @@ Definition do_real (v : variant) (fuel : nat) (tock : T) (tm : timer) (w : world
 
 (* A session: Doist(tock=tock0, real=True) is built, then a list of runs, each
    preceded by whatever the clock does in between and an optional `doist.tock = x`
-   (the Tymist setter stores float(x): no abs, a negative tock is kept). *)
-Record run_in := { i_pre : step; i_tock : option T; i_works : list step }.
+   (the Tymist setter stores float(x): no abs, a negative tock is kept).
+   [i_sets] are assignments to doist.tock made by a doer DURING the run (entry k:
+   in the recur of cycle k): the pacing of the run under way does not read them
+   (restart() re-uses the timer's own duration); they only decide the tock the
+   next run starts with. *)
+Record run_in := { i_pre : step; i_tock : option T; i_works : list step; i_sets : list (option T) }.
+
+Definition last_set (sets : list (option T)) (t : T) : T :=
+  fold_left (fun acc o => match o with Some x => x | None => acc end) sets t.
 
 Fixpoint session (v : variant) (fuel : nat) (tock : T) (tm : timer) (w : world) (runs : list run_in)
   : option (list run_out) :=
@@ -181,7 +188,7 @@ Fixpoint session (v : variant) (fuel : nat) (tock : T) (tm : timer) (w : world) 
     match do_real v fuel tock1 tm (advance w (i_pre r)) (i_works r) with
     | None => None
     | Some (o, tm1, w1) =>
-      match session v fuel tock1 tm1 w1 rest with
+      match session v fuel (last_set (i_sets r) tock1) tm1 w1 rest with
       | None => None
       | Some os => Some (o :: os)
       end
@@ -276,7 +283,7 @@ Fixpoint asession (fuel : nat) (tock : T) (w : world) (runs : list run_in) : opt
     match ado_real fuel tock1 (advance w (i_pre r)) (i_works r) with
     | None => None
     | Some (o, w1) =>
-      match asession fuel tock1 w1 rest with
+      match asession fuel (last_set (i_sets r) tock1) w1 rest with
       | None => None
       | Some os => Some (o :: os)
       end
@@ -306,11 +313,12 @@ Definition slp_ok (o : @slp Z) : Prop := match o with Over o => (0 <= o)%Z | Ear
 Definition world_ok (w : @world Z) : Prop :=
   Forall step_ok (reads w) /\ Forall slp_ok (overs w).
 
-(* the tock in force in each run of a session: the one given at construction until one is assigned *)
+(* the tock in force WHEN each run of a session STARTS: the one given at construction until one is assigned,
+   before a run or by a doer during an earlier run *)
 Fixpoint eff_tocks {T : Type} (tock : T) (runs : list (@run_in T)) : list T :=
   match runs with
   | [] => []
-  | r :: rest => let t := match i_tock r with Some x => x | None => tock end in t :: eff_tocks t rest
+  | r :: rest => let t := match i_tock r with Some x => x | None => tock end in t :: eff_tocks (last_set (i_sets r) t) rest
   end.
 
 Definition run_ok (r : @run_in Z) : Prop := step_ok (i_pre r) /\ Forall step_ok (i_works r).
